@@ -3,7 +3,9 @@ the oracle (driver) before it is written.  Run by hand; never at check time.
 
 Entries repaired in the library (status "fixed": exprmissing, exprtruth, strcasecmp, numtype,
 nullarg, adddate, concatstr, condkeys, undefvar, filtertruth, mapmissing, missingcmp, minmaxtypes,
-sumbool) are kept as they are; their rows in W are only documentation."""
+sumbool, arrayliteral, boolarith, letmissing, laxargs) are kept as they are; their rows in W are only
+documentation.  The witness of `scalararg` is one on which the model has no answer (the code
+iterates over the characters of a string): its entry is kept as it is too (KEEP)."""
 import datetime as dt
 import json
 import os
@@ -46,16 +48,16 @@ W = [
      'null / missing operand of the date-part operators, $arrayElemAt, $filter, $toLower, '
      '$toUpper, $toString, $strcasecmp raises AttributeError/TypeError, makes the field '
      'disappear or yields "None" instead of null / ""'),
-    ('arraypath', 'project', '$q.n', {'_id': 0, 'q': [{'n': 1}, {'p': 2}]},
-     'a field path through an array raises KeyError (field omitted) unless every element has '
-     'the field, and numeric components index arrays'),
+    ('arraypath', 'project', '$l.0', {'_id': 0, 'l': [7]},
+     'a numeric component of a field path that meets an array indexes it ("$l.0" on {l: [7]} is '
+     '7); MongoDB takes it as the name of a field of the documents of the array ([]).  (The other '
+     'half of this class - a path through an array was missing unless every element had the '
+     'field - was repaired in the library by f19df5e.)'),
     ('undefvar', 'project', {'$ifNull': ['$$nope', 1]}, {'_id': 0},
      'an undefined variable is treated as missing instead of being rejected'),
-    ('scalararg', 'project', {'$add': '$a'}, {'_id': 0, 'a': 1},
-     'a variadic operator given a bare operand instead of a list raises AssertionError / '
-     'TypeError ($sum / $avg / $min / $max: unless the operand is a path whose value is an array, '
-     'which they range over; any other value is iterated, a TypeError for numbers, booleans and '
-     'null)'),
+    ('scalararg', 'project', {'$eq': '$a'}, {'_id': 0, 'a': 1},
+     'an operator that takes a fixed number (not one) of arguments, given a bare operand instead '
+     'of a list, iterates over it (KEEP: the model has no answer on this witness)'),
     ('boolarith', 'project', {'$add': ['$f', 1]}, {'_id': 0, 'f': True},
      'booleans count as 0/1 in arithmetic and as array indexes'),
     ('adddate', 'project', {'$add': ['$t', 1000]}, {'_id': 0, 't': dt.datetime(2020, 1, 1)},
@@ -92,7 +94,7 @@ def main():
     path = os.path.join(common.VERIF, 'known_findings.json')
     data = json.load(open(path))
     fixed = {e['id'] for e in data['findings']
-             if e.get('property') == 'C04' and e.get('status') == 'fixed'}
+             if e.get('property') == 'C04' and e.get('status') == 'fixed'} | {'scalararg'}
     data['findings'] = [e for e in data['findings']
                         if e.get('property') != 'C04' or e['id'] in fixed]
     for fid, context, expr, doc, what in W:
